@@ -1061,9 +1061,89 @@ func c16WarnPhase(c *run.Ctx) {
 	})
 }
 
+// Lists decoded into a slice that was emptied in place (length 0, old elements still in the spare capacity): every
+// list item is a new value - what an item does not mention is zero, not what an old element happened to hold.
+type c16Lists struct {
+	Jobs  []c16Leaf  `yaml:"jobs"`
+	Ptrs  []*c16Leaf `yaml:"ptrs"`
+	Lists [][]string `yaml:"lists"`
+}
+
+func c16StalePhase(c *run.Ctx) {
+	c.Parallel("stale", c.N(2000, 60000), func(i int, r *rand.Rand) {
+		id := run.CaseID("stale", i)
+		n := 0
+		word := func() string { n++; return fmt.Sprintf("w%d", n) }
+		strs := func() *doc.Node {
+			l := doc.L()
+			l.Seq = []*doc.Node{}
+			for j, m := 0, r.IntN(3); j < m; j++ {
+				l.Seq = append(l.Seq, doc.S(word()))
+			}
+			return l
+		}
+		leaf := func() *doc.Node {
+			m := doc.M()
+			m.Map = []doc.Pair{}
+			if r.IntN(2) == 0 {
+				m.Map = append(m.Map, doc.P("a", doc.S(word())))
+			}
+			if r.IntN(2) == 0 {
+				m.Map = append(m.Map, doc.P("b", strs()))
+			}
+			if r.IntN(3) == 0 {
+				n++
+				m.Map = append(m.Map, doc.P("n", doc.I(int64(n))))
+			}
+			return m
+		}
+		list := func(mk func() *doc.Node) *doc.Node {
+			l := doc.L()
+			l.Seq = []*doc.Node{}
+			for j, m := 0, 1+r.IntN(3); j < m; j++ {
+				l.Seq = append(l.Seq, mk())
+			}
+			return l
+		}
+		d := doc.M(doc.P("jobs", list(leaf)), doc.P("ptrs", list(leaf)), doc.P("lists", list(strs)))
+		var dst c16Lists
+		stale := func() c16Leaf { return c16Leaf{A: "STALE", B: []string{"STALE", "STALE"}, N: -7} }
+		dst.Jobs = make([]c16Leaf, 4, 8)
+		dst.Ptrs = make([]*c16Leaf, 4, 8)
+		dst.Lists = make([][]string, 4, 8)
+		for j := 0; j < 4; j++ {
+			s := stale()
+			dst.Jobs[j], dst.Ptrs[j], dst.Lists[j] = stale(), &s, []string{"STALE", "STALE", "STALE"}
+		}
+		dst.Jobs, dst.Ptrs, dst.Lists = dst.Jobs[:0], dst.Ptrs[:0], dst.Lists[:0]
+		var uerr error
+		if pi := run.Guard(func() { uerr = ordered.Unmarshal(docToAny(d), &dst) }); pi != nil {
+			c.Violation(id, map[string]any{"what": "Unmarshal panicked: " + pi.Value, "document": d.String(), "stack": pi.Stack})
+			return
+		}
+		c.Eval(1)
+		if uerr != nil {
+			c.Violation(id, map[string]any{"what": "well-typed document rejected: " + uerr.Error(), "document": d.String()})
+			return
+		}
+		var ref c16Lists
+		if err := yaml.Unmarshal(doc.ToJSON(d), &ref); err != nil {
+			c.Infra("stale: yaml.v3 rejects the document: %v", err)
+			return
+		}
+		if diff := doc.Equal(valToDoc(reflect.ValueOf(ref)), valToDoc(reflect.ValueOf(dst)), doc.EqOpts{}); diff != "" {
+			c.Violation(id, map[string]any{"what": "lists decoded into slices that had been emptied in place differ from yaml.v3's result on a fresh value (an item picked up what an old element held?): " + diff,
+				"document": d.String(), "yaml_v3": valToDoc(reflect.ValueOf(ref)).String(), "go_pipeline": valToDoc(reflect.ValueOf(dst)).String()})
+			return
+		}
+		c.Count("documents_into_emptied_slices", 1)
+	})
+}
+
 func checkC16(c *run.Ctx) {
 	c16OrderedPhase(c)
 	c16WarnPhase(c)
+	c16StalePhase(c)
 	ntypes := c.N(4000, 100000)
 	ndocs := c.N(20, 50)
 	c.Parallel("type", ntypes, func(i int, r *rand.Rand) {
